@@ -1373,8 +1373,22 @@ func (x *Exec) convert(v Value, from, to types.Type) Value {
 		if isFloat(to) {
 			return v
 		}
-		if tw, _ := width(to); tw > 0 {
-			return Extend(fpToInt64(v.(*Term)), tw, true)
+		if tw, tsigned := width(to); tw > 0 {
+			// linux/amd64 lowering (validated natively): 64-bit signed = CVTTSD2SQ; uint64 = two-range sequence;
+			// uint32 = CVTTSD2SQ truncated; all narrower kinds and int32 = CVTTSD2SL truncated
+			f := v.(*Term)
+			switch {
+			case tw == 64 && tsigned:
+				return fpToInt64(f)
+			case tw == 64:
+				two63 := FP(9223372036854775808.0)
+				hi := bvbin("bvor", fpToInt64(fpbin("fp.sub", f, two63)), BV(0x8000000000000000, 64))
+				return Ite(fpcmp("fp.lt", f, two63), fpToInt64(f), hi)
+			case tw == 32 && !tsigned:
+				return Extend(fpToInt64(f), 32, false)
+			default:
+				return Extend(fpToInt32(f), tw, false)
+			}
 		}
 	}
 	if _, ok := to.Underlying().(*types.Pointer); ok {
